@@ -1393,8 +1393,21 @@ def norm_call(fn, args, kw):
             return ('tuple', (('attr', o, 'lower'), ('attr', o, 'upper')))
     b = bind_glob(fn, args, kw)
     if b is not None:
-        return mapt(norm, b)
+        return _lift_if(mapt(norm, b))
+    if fn[0] == 'glob' and not args and PROGRAM is not None and (fn[1] in PROGRAM.classes or fn[1] in PROGRAM.functions):
+        return _lift_if(call(fn, args, kw))
     return call(fn, args, kw)
+
+
+def _lift_if(c):
+    """canonical calls of repository functions: a conditional argument is lifted out of the call"""
+    if c[0] != 'call' or c[2]:
+        return c
+    for i, (k, v) in enumerate(c[3]):
+        if v[0] == 'if' and v[1][0] in ('cmp', 'and', 'or', 'not'):
+            mk = lambda x: _lift_if(('call', c[1], (), c[3][:i] + ((k, x),) + c[3][i + 1:]))
+            return ('if', v[1], mk(v[2]), mk(v[3]))
+    return c
 
 
 def _tuple_view(body):
@@ -1678,6 +1691,20 @@ def _reorder_exclusive_chain(t):
     default = cur
     consts = [x[1] for c, _, _ in chain for x in walk(c) if x[0] == 'const' and isinstance(x[1], int)]
     lo, hi = min(consts + [0]) - 3, max(consts + [0]) + 3
+    if _is_len(scrut):
+        # a length is non-negative: canonical piecewise form  if len <= h1: b1 elif len <= h2: b2 ... else b_last
+        pieces = []
+        for x in range(0, hi + 1):
+            br = next((a for _, pr, a in chain if pr(x)), default)
+            if pieces and pieces[-1][1] == br:
+                pieces[-1] = (x, br)
+            else:
+                pieces.append((x, br))
+        if len({_key(b) for _, b in pieces}) == len(pieces) or True:
+            out = pieces[-1][1]
+            for hi_x, br in reversed(pieces[:-1]):
+                out = ('if', ('ge0', _mk_poly({(scrut,): -1, (): hi_x})), br, out)
+            return out if out != t else None
     for x in range(lo, hi + 1):
         if sum(1 for _, pr, _ in chain if pr(x)) > 1:
             return None                      # not mutually exclusive
